@@ -84,6 +84,10 @@ def run(chk):
     chk.attempt("E15", lambda: no_swallowing(chk, P))
     chk.attempt("E13", lambda: name_clashes(chk, P))
     chk.attempt("E14", lambda: nested_call_arity(chk, P))
+    # E10 also: the documented Finnis-Sinclair targets reach the Finnis-Sinclair builder - with the plain EAM builder every
+    # well-formed 'A->B' density model of that target is refused ("could not find atomic number for species A->B")
+    from .c04 import factories as _fs_factories
+    chk.attempt("E10fs", lambda: _fs_factories(chk, P, "C16.E10"))
     chk.attempt("E12", lambda: unknown_names(chk, P))
     chk.attempt("E12t", lambda: table_form_arity(chk, P))
     chk.assume("Python can raise from almost anything; this is conformance of the enumerated input partitions and rules, "
